@@ -31,9 +31,11 @@ CONSTANTS
   \* @type: Set(Str);
   Peers_,      \* ids of the configured peers
   \* @type: Set(Str);
+  Later_,      \* ids that are not configured at the start but may be by a later version of the config file
+  \* @type: Set(Str);
   Foreign_,    \* ids that are not part of the cluster
   \* @type: Int;
-  Quorum,      \* effective quorum (configured, or Cardinality(Peers_ \cup {Me}) \div 2 + 1)
+  Quorum,      \* the configured quorum, or 0: none configured (default: strict majority of the configured nodes)
   \* @type: Int;
   MyPrio,      \* this node's priority value (lower value = higher priority, lib.rs:75-85)
   \* @type: Bool;
@@ -58,6 +60,15 @@ VARIABLES
   net,         \* peer id -> Seq(datagram) sent to that peer, not yet observed
   \* @type: Seq({t: Str, mode: Str, to: Str});
   proc,        \* Seq of starts / stops of the server process, not yet observed
+  \* the configuration at run time (config.rs: watch_config_file / reload_config, a channel of capacity 1 to the main loop)
+  \* @type: Set(Str);
+  cpeers,      \* the peers the node currently works with (election.rs self.peers)
+  \* @type: Set(Str);
+  file,        \* the peers named by the config file as it is now
+  \* @type: Set(Str);
+  seen,        \* the peers named by the version of the file the watcher loaded last
+  \* @type: Seq(Set(Str));
+  pend,        \* versions the watcher has sent and the main loop has not received yet (at most one)
   \* reference layer (not read by the actions)
   \* @type: Set(Str);
   roundVoters, \* configured peers whose vote response was received since the votes were requested
@@ -66,9 +77,14 @@ VARIABLES
   \* @type: Set(Str);
   eused
 
-evars == <<phase, inbox, votes, mayVote, hbFrom, leader, net, proc, roundVoters, announced, eused>>
+evars == <<phase, inbox, votes, mayVote, hbFrom, leader, net, proc, cpeers, file, seen, pend, roundVoters, announced, eused>>
+cfgvars == <<cpeers, file, seen, pend>>
 
-Ids == Peers_ \cup Foreign_ \cup {Me}
+AllPeers == Peers_ \cup Later_
+Ids == AllPeers \cup Foreign_ \cup {Me}
+\* config.rs quorum_sanity_check: the configured quorum, else node_count / 2 + 1
+QuorumOf(P) == IF Quorum = 0 THEN (Cardinality(P) + 1) \div 2 + 1 ELSE Quorum
+EQ == QuorumOf(cpeers)
 VoteReq(id, p) == [t |-> "voteReq", id |-> id, prio |-> p]
 \* (one record shape for all datagrams: prio is 0 where the protocol has none)
 VoteResp(id)   == [t |-> "voteResp", id |-> id, prio |-> 0]
@@ -79,18 +95,19 @@ PStop == [t |-> "stop", mode |-> "", to |-> ""]
 
 EInit ==
   /\ phase = "wait" /\ inbox = <<>> /\ votes = 0 /\ mayVote = {} /\ hbFrom = "wait" /\ leader = Me
-  /\ net = [p \in Peers_ |-> <<>>] /\ proc = <<>>
+  /\ net = [p \in AllPeers |-> <<>>] /\ proc = <<>>
+  /\ cpeers = Peers_ /\ file = Peers_ /\ seen = Peers_ /\ pend = <<>>
   /\ roundVoters = {} /\ announced = {} /\ eused = {}
 
-ToPeer(q, p, m) == IF p \in Peers_ THEN [q EXCEPT ![p] = Append(@, m)] ELSE q     \* peers.raft_addr(p) = None: nothing is sent
-Broadcast(q, m) == [p \in Peers_ |-> Append(q[p], m)]
+ToPeer(q, p, m) == IF p \in cpeers THEN [q EXCEPT ![p] = Append(@, m)] ELSE q     \* peers.raft_addr(p) = None: nothing is sent
+Broadcast(q, m) == [p \in AllPeers |-> IF p \in cpeers THEN Append(q[p], m) ELSE q[p]]
 
 \* lead(): the server is started with --leader
 BecomeLeader ==
   /\ phase' = "leader" /\ proc' = Append(proc, PStart("leader", ""))
 \* follow(hb): peers.sync_addr(id) = None returns at once (follower.rs:41-45) and the main loop starts the next election
 BecomeFollower(id) ==
-  IF id \in Peers_
+  IF id \in cpeers
     THEN /\ phase' = "follower" /\ leader' = id
          /\ proc' = Append(proc, PStart("follower", id))
     ELSE /\ phase' = "wait" /\ UNCHANGED <<leader, proc>>
@@ -98,15 +115,15 @@ BecomeFollower(id) ==
 \* "Requesting peers to vote for me" (election.rs:144-161)
 RequestVotes ==
   /\ votes' = 1 /\ roundVoters' = {}
-  /\ IF 1 >= Quorum
+  /\ IF 1 >= EQ
        THEN BecomeLeader /\ UNCHANGED <<net, mayVote>>
-       ELSE /\ phase' = "votes" /\ mayVote' = Peers_
+       ELSE /\ phase' = "votes" /\ mayVote' = cpeers
             /\ net' = Broadcast(net, VoteReq(Me, MyPrio)) /\ UNCHANGED proc
 
 Better(p) == p <= MyPrio                     \* vote.priority >= self.prio under the reversed order
 
 \* ---------------------------------------------------------------------------
-EnvSend(m) == inbox' = Append(inbox, m) /\ UNCHANGED <<phase, votes, mayVote, hbFrom, leader, net, proc, roundVoters, announced, eused>>
+EnvSend(m) == inbox' = Append(inbox, m) /\ UNCHANGED <<phase, votes, mayVote, hbFrom, leader, net, proc, roundVoters, announced, eused>> /\ UNCHANGED cfgvars
 
 Recv ==
   /\ inbox # <<>>
@@ -118,16 +135,16 @@ Recv ==
                  THEN \* support_vote, then wait_for_heartbeat
                       /\ net' = ToPeer(net, m.id, VoteResp(Me)) /\ phase' = "hb" /\ hbFrom' = "wait"
                       /\ UNCHANGED <<votes, mayVote, leader, proc, roundVoters>>
-               ELSE IF m.t = "hbReq" /\ m.id \in Peers_ \cup {Me}                  \* is_part_of_cluster
+               ELSE IF m.t = "hbReq" /\ m.id \in cpeers \cup {Me}                  \* is_part_of_cluster
                  THEN BecomeFollower(m.id)
                       /\ UNCHANGED <<votes, mayVote, hbFrom, net, roundVoters>>
                ELSE UNCHANGED <<phase, votes, mayVote, hbFrom, leader, net, proc, roundVoters>>
           [] phase = "votes" ->
                IF m.t = "voteResp"
-                 THEN /\ roundVoters' = IF m.id \in Peers_ THEN roundVoters \cup {m.id} ELSE roundVoters
+                 THEN /\ roundVoters' = IF m.id \in cpeers THEN roundVoters \cup {m.id} ELSE roundVoters
                       /\ IF m.id \in mayVote
                            THEN /\ mayVote' = mayVote \ {m.id} /\ votes' = votes + 1
-                                /\ IF votes + 1 >= Quorum THEN BecomeLeader ELSE UNCHANGED <<phase, proc>>
+                                /\ IF votes + 1 >= EQ THEN BecomeLeader ELSE UNCHANGED <<phase, proc>>
                            ELSE UNCHANGED <<mayVote, votes, phase, proc>>
                       /\ UNCHANGED <<hbFrom, leader, net>>
                ELSE IF m.t = "voteReq" /\ Better(m.prio)
@@ -152,43 +169,72 @@ Recv ==
                  THEN /\ net' = ToPeer(net, leader, HbResp(Me))
                       /\ UNCHANGED <<phase, votes, mayVote, hbFrom, leader, proc, roundVoters>>
                ELSE UNCHANGED <<phase, votes, mayVote, hbFrom, leader, net, proc, roundVoters>>
-  /\ UNCHANGED eused
+  /\ UNCHANGED eused /\ UNCHANGED cfgvars
 
 \* the timers (election timeout, vote timeout, heartbeat timeout, loss of the quorum of responsive peers)
+\* the main loop takes a new version of the configuration out of the channel (election.rs:112-117,126-131,137-142,
+\* 185-190: the peers are replaced, the quorum recomputed, the election round starts over)
+TakeConfig ==
+  /\ cpeers' = Head(pend) /\ pend' = <<>>
+RestartRound ==
+  /\ TakeConfig /\ phase' = "wait"
+  /\ UNCHANGED <<votes, mayVote, hbFrom, leader, net, proc, roundVoters, file, seen>>
+\* before it asks for votes the round looks into the channel once more (election.rs:137)
+AskOrRestart == IF pend = <<>> THEN RequestVotes /\ UNCHANGED <<hbFrom, leader>> /\ UNCHANGED cfgvars ELSE RestartRound
 Timeout ==
-  /\ CASE phase = "wait"  -> RequestVotes /\ UNCHANGED <<hbFrom, leader>>
-       [] phase = "votes" -> phase' = "wait" /\ UNCHANGED <<votes, mayVote, hbFrom, leader, net, proc, roundVoters>>
+  /\ CASE phase = "wait"  -> AskOrRestart
+       [] phase = "votes" -> phase' = "wait" /\ UNCHANGED <<votes, mayVote, hbFrom, leader, net, proc, roundVoters>> /\ UNCHANGED cfgvars
        [] phase = "hb"    -> IF hbFrom = "wait"
-                               THEN RequestVotes /\ UNCHANGED <<hbFrom, leader>>     \* falls through to the request (election.rs:126-161)
-                               ELSE phase' = "wait" /\ UNCHANGED <<votes, mayVote, hbFrom, leader, net, proc, roundVoters>>
+                               THEN AskOrRestart                                     \* falls through to the request (election.rs:126-161)
+                               ELSE phase' = "wait" /\ UNCHANGED <<votes, mayVote, hbFrom, leader, net, proc, roundVoters>> /\ UNCHANGED cfgvars
        [] phase \in {"leader", "follower"} ->
                /\ phase' = "wait" /\ proc' = Append(proc, PStop)
-               /\ UNCHANGED <<votes, mayVote, hbFrom, leader, net, roundVoters>>
+               /\ UNCHANGED <<votes, mayVote, hbFrom, leader, net, roundVoters>> /\ UNCHANGED cfgvars
+  /\ UNCHANGED <<inbox, announced, eused>>
+
+\* the configuration file is rewritten (by an operator); only the set of peers changes, and only where no quorum is
+\* configured (a configured quorum above the new node count ends the process: config.rs:195, not modelled)
+EnvRewrite(P) ==
+  /\ Quorum = 0 /\ file' = P
+  /\ UNCHANGED <<phase, inbox, votes, mayVote, hbFrom, leader, net, proc, cpeers, seen, pend, roundVoters, announced, eused>>
+\* the watcher's periodic look at the file (config.rs:433-478): a version that differs from the last one loaded is
+\* sent to the main loop - or dropped, if the channel is full (try_send), and still remembered as loaded
+Scan ==
+  /\ file # seen /\ seen' = file
+  /\ pend' = IF pend = <<>> THEN <<file>> ELSE pend
+  /\ UNCHANGED <<phase, inbox, votes, mayVote, hbFrom, leader, net, proc, cpeers, file, roundVoters, announced, eused>>
+\* the blocked main loop receives the new version: an election round starts over; the leader goes on with the new peers
+\* (leader.rs:81-89); wait_for_heartbeat and follow() do not look at the channel
+Reload ==
+  /\ pend # <<>>
+  /\ CASE phase \in {"wait", "votes"} -> RestartRound
+       [] phase = "leader" -> TakeConfig /\ UNCHANGED <<phase, votes, mayVote, hbFrom, leader, net, proc, roundVoters, file, seen>>
+       [] OTHER -> FALSE
   /\ UNCHANGED <<inbox, announced, eused>>
 
 \* the leader's heartbeat (leader.rs:70-76)
 LeaderBeat ==
   /\ phase = "leader"
   /\ net' = Broadcast(net, HbReq(Me))
-  /\ UNCHANGED <<phase, inbox, votes, mayVote, hbFrom, leader, proc, roundVoters, announced, eused>>
+  /\ UNCHANGED <<phase, inbox, votes, mayVote, hbFrom, leader, proc, roundVoters, announced, eused>> /\ UNCHANGED cfgvars
 
 \* the outside takes a datagram / notices a start or stop
 TakeNet(p) == net[p] # <<>> /\ net' = [net EXCEPT ![p] = Tail(@)]
-              /\ UNCHANGED <<phase, inbox, votes, mayVote, hbFrom, leader, proc, roundVoters, announced, eused>>
+              /\ UNCHANGED <<phase, inbox, votes, mayVote, hbFrom, leader, proc, roundVoters, announced, eused>> /\ UNCHANGED cfgvars
 TakeProc == proc # <<>> /\ proc' = Tail(proc)
-            /\ UNCHANGED <<phase, inbox, votes, mayVote, hbFrom, leader, net, roundVoters, announced, eused>>
+            /\ UNCHANGED <<phase, inbox, votes, mayVote, hbFrom, leader, net, roundVoters, announced, eused>> /\ UNCHANGED cfgvars
 
 (***************************************************************************)
 (* C19                                                                     *)
 (***************************************************************************)
 \* the counter is what the reference layer counts
-CountInv == phase = "votes" => votes = 1 + Cardinality(roundVoters) /\ mayVote = Peers_ \ roundVoters
+CountInv == phase = "votes" => votes = 1 + Cardinality(roundVoters) /\ mayVote = cpeers \ roundVoters
 \* every step that starts the server in leader mode has the quorum of this round behind it
 LeaderStep ==
-  (phase' = "leader" /\ phase # "leader") => 1 + Cardinality(roundVoters') >= Quorum /\ roundVoters' \subseteq Peers_
+  (phase' = "leader" /\ phase # "leader") => 1 + Cardinality(roundVoters') >= QuorumOf(cpeers') /\ roundVoters' \subseteq cpeers'
 \* every step that starts the server in follower mode follows a configured peer that announced itself
 FollowerStep ==
-  (phase' = "follower" /\ phase # "follower") => leader' \in Peers_ /\ leader' \in announced'
+  (phase' = "follower" /\ phase # "follower") => leader' \in cpeers' /\ leader' \in announced'
 C19Action == [][LeaderStep /\ FollowerStep]_evars
 \* starts and stops alternate: at most one server process at a time
 OneProcess ==
